@@ -1412,3 +1412,97 @@ pub fn stat_programs(tier: &str) -> Vec<Program> {
     }
     v
 }
+
+// ------------------------------------------------------------------------------------------
+// SPIN: one thread busy-waits (with yield) on a value another thread stores
+// ------------------------------------------------------------------------------------------
+
+pub fn spin_family(nat: usize, nwriters: usize, maxlen: usize, full: bool) -> Vec<Program> {
+    let mut out = vec![];
+    let mut seen = HashSet::new();
+    let st_os: &[MO] = if full { &[Rlx, Rel, Sc] } else { &[Rlx, Rel] };
+    let ld_os: &[MO] = if full { &[Rlx, Acq, Sc] } else { &[Rlx, Acq] };
+    let mut walpha: Vec<Op> = vec![];
+    for a in 0..nat {
+        for &o in st_os {
+            walpha.push(st(a, 0, o));
+        }
+        for &o in ld_os {
+            walpha.push(ld(a, o));
+        }
+    }
+    let wpool = seqs(&walpha, maxlen);
+    let mut side: Vec<Option<Op>> = vec![None];
+    if nat > 1 {
+        side.push(Some(ld(1, Rlx)));
+        side.push(Some(ld(1, Acq)));
+        side.push(Some(st(1, 0, Rlx)));
+    }
+    side.push(Some(ld(0, Rlx)));
+    for ws in thread_sets(&wpool, nwriters, maxlen * nwriters) {
+        // number the stored values first (the waiter picks one of them)
+        let ws = canon_atomic_children(ws, nat);
+        let stored0: Vec<u64> = ws.iter().flatten().filter_map(|op| if let K::Store { a: 0, v, .. } = op.k { Some(v) } else { None }).collect();
+        // the awaited atomic is written once (a transient value may legitimately be missed)
+        if stored0.len() > 1 {
+            continue;
+        }
+        let mut wants: Vec<u64> = stored0.clone();
+        wants.push(77); // never stored: the loop can never exit
+        for &want in &wants {
+            for &ao in ld_os {
+                for pre in &side {
+                    for post in &side {
+                        let mut w: Vec<Op> = vec![];
+                        if let Some(p) = pre {
+                            w.push(p.clone());
+                        }
+                        w.push(K::Await { a: 0, mo: ao, want }.into());
+                        if let Some(p) = post {
+                            w.push(p.clone());
+                        }
+                        // the waiter's own stores get values that do not collide
+                        let mut n = 50;
+                        for op in w.iter_mut() {
+                            if let K::Store { v, .. } = &mut op.k {
+                                n += 1;
+                                *v = n;
+                            }
+                        }
+                        let mut ch = ws.clone();
+                        ch.push(w);
+                        let p = with_main("SPIN", atomics(nat), vec![], ch, vec![], (0..nat).map(|a| ld(a, Rlx)).collect());
+                        if seen.insert(p.text()) {
+                            out.push(p);
+                        }
+                    }
+                }
+            }
+        }
+    }
+    out
+}
+
+pub fn spin_programs(tier: &str) -> Vec<Program> {
+    use crate::ir::MO::*;
+    let mut v = vec![];
+    if tier == "quick" {
+        v.extend(spin_family(1, 1, 2, false));
+        v.extend(spin_family(2, 1, 2, false));
+    } else {
+        v.extend(spin_family(1, 1, 3, true));
+        v.extend(spin_family(2, 1, 2, true));
+        v.extend(spin_family(2, 2, 1, false));
+    }
+    // S34: tests/yield.rs shape; the store that ends the loop happens only if a CAS is won
+    v.push(with_main("S34-yield", atomics(1), vec![], vec![vec![st(0, 1, Rel)]], vec![K::Await { a: 0, mo: Acq, want: 1 }.into()], vec![]));
+    v.push(with_main(
+        "S35-sometimes",
+        atomics(2),
+        vec![],
+        vec![vec![cas(1, 0, 1, Rlx, Rlx), K::Store { a: 0, v: 1, mo: Rel }.when(0, Res::Ok(0))], vec![cas(1, 0, 2, Rlx, Rlx)], vec![K::Await { a: 0, mo: Acq, want: 1 }.into()]],
+        vec![],
+        vec![],
+    ));
+    v
+}
